@@ -16,9 +16,11 @@ import (
 
 func init() { drv.Register("C07", monC07) }
 
+// c07Val is a value type of more than 64 bytes (an implementation may treat large items differently from ints).
 type c07Val struct {
 	A int64
 	B [3]byte
+	C [9]int64
 }
 
 var c07Sizes = []int{0, 1, 2, 3, 5, 6, 7, 8, 12, 13, 17, 23, 24, 31, 46, 61, 96, 100, 191, 1000}
@@ -305,7 +307,7 @@ func monC07(c *drv.Ctx) {
 			for i, k := range keys {
 				vi[i] = r.Intn(1 << 30)
 				vs[i] = string(gen.Bytes(r, r.Intn(20)))
-				vv[i] = c07Val{A: int64(vi[i]) * 3, B: [3]byte{byte(i), byte(i >> 8), 7}}
+				vv[i] = c07Val{A: int64(vi[i]) * 3, B: [3]byte{byte(i), byte(i >> 8), 7}, C: [9]int64{int64(i), 8: int64(vi[i])}}
 				wi[k], ws[k], wv[k] = vi[i], vs[i], vv[i]
 			}
 			var err1, err2, err3 error
